@@ -34,7 +34,31 @@ MANIFEST = dict(
               "+ property oracle on corpus and generated modules",
     design_ref="DESIGN.md section 4 C16 / C17",
 )
-REQUIRED = []
+REQUIRED = ["Xmp.Control." + n for n in (
+    "C17_set_position_partial", "C17_set_position_ret0_counterexample", "C17_set_position_current_order_counterexample",
+    "C17_refuse_position", "C17_refuse_row", "C17_set_row", "C17_next_inside", "C17_next_one_order", "C17_next_stays",
+    "C17_prev_inside", "C17_prev_entry", "C17_prev_stays", "C17_marker_skipping_terminates", "C17_seek_time",
+    "C17_seek_time_fallback", "C17_restart", "C17_stop")] + [
+    "Xmp.Control.setPosition_isSome", "Xmp.Control.skipMarkers_isSome", "Xmp.Control.skipInvalid_exit",
+    "Xmp.Control.nextOrderLoop_skip"]
+
+# Lean witnesses (XmpProps/C17.lean: wTwo / wMark) replayed on the real library: (module text, script, expected lines)
+WITNESSES = [
+    ("wTwo", "H 1 2 2 0 0 0 0 6 125\nO 0 1\nR 64 64\n", "setpos 1\nplay 10\nop set_position 1\n",
+     {"pre": "1 1 1 1 3 6 125 64 0 0 0 0 -1 0 0 -1 -1 -1 0 0 -1 64 0 0 0", "ret": "1",
+      "oracle": "fail land:xmp_set_position(current-order)", "fi": "1 1 1 64 4 0 0"}),
+    ("wTwo", "H 1 2 2 0 0 0 0 6 125\nO 0 1\nR 64 64\n", "setpos 1\nplay 10\nop set_position 0\n",
+     {"ret": "-1", "oracle": "fail ret:xmp_set_position(0)=-1", "fi": "0 0 0 64 0 0 0"}),
+    ("wMark", "H 1 2 5 0 1 0 0 6 125\nO 0 254 1 255 0\nR 64 64\n", "play 5\nop next_position 0\n",
+     {"ret": "2", "oracle": "ok next:inside", "fi": "2 1 0 64 0 0 0"}),
+    ("wMark", "H 1 2 5 0 1 0 0 6 125\nO 0 254 1 255 0\nR 64 64\n", "setpos 2\nplay 5\nop next_position 0\n",
+     {"ret": "2", "oracle": "ok next:end"}),
+    ("wMark", "H 1 2 5 0 1 0 0 6 125\nO 0 254 1 255 0\nR 64 64\n", "setpos 2\nplay 5\nop prev_position 0\n",
+     {"ret": "0", "oracle": "ok prev:inside", "fi": "0 0 0 64 0 0 0"}),
+    ("wMark", "H 1 2 5 0 1 0 0 6 125\nO 0 254 1 255 0\nR 64 64\n", "play 5\nop seek_time 8000\n",
+     {"ret": "2", "oracle": "ok seek:landing", "fi": "2 1 0 64 0 0 0"}),
+]
+
 
 STATE_FIELDS = 25
 
@@ -173,21 +197,50 @@ def run(ck):
     quick = ck.tier == "quick"
     sdir = os.path.join(vlib.OUT, "c17-synth-%d" % ck.seed)
     os.makedirs(sdir, exist_ok=True)
-    nsynth = 160 if quick else 2500
+    nsynth = 400 if quick else 5000
     synth = [gen_synth(ck.rng, os.path.join(sdir, "s%04d.synth" % i)) for i in range(nsynth)]
     corpus = [f for f in vlib.corpus_files() if os.path.getsize(f) < (600000 if quick else 30000000)]
     fixed = [f for f in corpus if "/test/test." in f]
     rest = [f for f in corpus if f not in fixed]
     ck.rng.shuffle(rest)
     if quick:
-        rest = rest[:90]
+        rest = rest[:120]
     files = fixed + rest + synth
     ck.rng.shuffle(files)
     nsh = 16 if quick else 32
-    ncases = 60 if quick else 200
+    ncases = 150 if quick else 600
     shards = [(exe, ck.seed, not quick, ncases, files[i::nsh]) for i in range(nsh)]
     results = vlib.pmap(run_shard, shards, workers=16)
     evaluate(ck, exe, results)
+    replay_witnesses(ck, exe)
+
+
+def replay_witnesses(ck, exe):
+    """the concrete witnesses of the Lean examples / counterexamples, run on the real library"""
+    n = 0
+    for name, text, script, expect in WITNESSES:
+        mp = os.path.join(vlib.OUT, "c17-%s.synth" % name)
+        sp = os.path.join(vlib.OUT, "c17-witness-script.txt")
+        open(mp, "w").write(text)
+        open(sp, "w").write(script)
+        rc, out, err = vlib.run_exe(exe, ["script", mp, sp], timeout=60)
+        got = {}
+        for line in out.decode("latin-1").splitlines():
+            w = line.split(" ", 1)
+            if w[0] in ("pre", "ret", "oracle") and len(w) > 1:
+                got[w[0]] = w[1]
+            elif w[0] == "frame":
+                got["fi"] = w[1].split(" fi ")[1]
+        bad = [k for k, v in expect.items() if not got.get(k, "").startswith(v)]
+        if rc != 0 or bad:
+            ck.unproved("witness replay " + name, "Lean witness %s script %r: real library gives %r, theorem says %r" % (
+                name, script, {k: got.get(k) for k in expect}, expect))
+        else:
+            n += 1
+        if got.get("oracle", "").startswith("fail"):
+            ck.violation(got["oracle"].split(" ")[1], {"module": mp, "module_text": text, "script": script, "oracle": got["oracle"]},
+                         "position control (Lean counterexample witness replayed): " + got["oracle"][5:])
+    ck.note("lean_witnesses_replayed_on_real_library", n)
 
 
 def evaluate(ck, exe, results):
